@@ -201,7 +201,9 @@ def run(ctx, rep):
         # the computed digest must come from the decoded stream: io::copy from the reader into the md5 context
         rep.check("C05.md5", "digest computed over the decoded bytes (io::copy reader->md5)", len(call_blocks(vb, r"std::io::copy$")) >= 2, loc_of(vb))
     from rules import C03 as _C03
-    _C03.run(ctx, SubReport(rep, "C03", "C05.codes", only=r"^C03\.rfc$"))
+    compose(ctx, rep, "C03", "C05.codes", r"^C03\.rfc$")
+    from rules import C16 as _C16
+    compose(ctx, rep, "C16", "C05.stream", r"^C16\.(gate|sync)$")
 
 
 def _closure_root(F, b):
